@@ -225,6 +225,16 @@ def check(case) -> Res:
         if "inline_definitions" in combo and "store_labels" not in combo:
             if any(t["type"] == "definition" for t in t2) != bool(e2.get("references") or e2.get("duplicate_refs")):
                 pass
+    # ---- (5) configured after use == configured at construction
+    e_a: dict = {}
+    e_b: dict = {}
+    m_a = C.build(dict(cfg, late=False))
+    m_b = C.build(dict(cfg, late=True))
+    t_a, t_b = dump(m_a.parse(src, e_a)), dump(m_b.parse(src, e_b))
+    if t_a != t_b or e_a != e_b:
+        res.fail("late-configuration:tokens-differ", f"options/rules applied to a used instance vs at construction: {first_diff(t_b, t_a)}")
+    elif m_a.render(src) != m_b.render(src):
+        res.fail("late-configuration:html-differs", f"{m_b.render(src)!r} != {m_a.render(src)!r}"[:500])
     # ---- (4) option routes
     ro = case.get("route_opts") or {}
     if ro:
